@@ -223,6 +223,31 @@ class Source:
         parts = [p.strip() for p in item_path.split("/")]
         lo, hi = 0, len(self.toks)
         item = None
+        if parts and parts[0].startswith("macro_rules!"):
+            # items generated by a macro_rules! definition: `macro_rules! NAME / impl .. / fn ..` looks inside the
+            # repetition group `$( .. )+` (or the whole body) of the macro's first arm; metavariables stay as written
+            # (`$len`) and are bound by the unit (`macro_vars=`)
+            name = parts[0].split("!", 1)[1].strip()
+            T = self.toks
+            mo = None
+            for i in range(len(T) - 3):
+                if T[i].text == "macro_rules" and T[i + 1].text == "!" and T[i + 2].text == name and T[i + 3].text in OPEN:
+                    mo = i + 3; break
+            if mo is None:
+                raise ExtractError(f"anchor lost: {self.path} :: macro_rules! {name}")
+            mc = match_close(T, mo)
+            j = mo + 1
+            while j < mc and T[j].text != "=>":
+                j = match_close(T, j) + 1 if T[j].text in OPEN else j + 1
+            while j < mc and T[j].text not in OPEN:
+                j += 1
+            if j >= mc:
+                raise ExtractError(f"anchor lost: {self.path} :: macro_rules! {name} (no arm body)")
+            lo, hi = j + 1, match_close(T, j)
+            for k in range(lo, hi - 1):
+                if T[k].text == "$" and T[k + 1].text == "(":
+                    lo, hi = k + 2, match_close(T, k + 1); break
+            parts = parts[1:]
         for depth, part in enumerate(parts):
             found = []
             for it in _items_in(self.src, self.toks, lo, hi):
